@@ -37,6 +37,14 @@ example : (Gen.kindTable.any (·.family == .text)) = true ∧ (Gen.kindTable.any
     (Gen.kindTable.all (fun r => r.pandasKind != .error && r.narwhalsKind != .error && r.arrowKind != .error)) = true := by
   decide
 
+/-- the probe table contains pandas' Arrow-backed dtypes (a dictionary of strings / of integers -- the Arrow-backed
+categorical --, Arrow binary, the Arrow string view), and each of them is CATEGORICAL on every route -/
+example : ["arrow:dictionary[string]", "arrow:dictionary[large_string]", "arrow:dictionary[int64]", "arrow:binary",
+      "arrow:string_view"].all (fun l => (lookupRow Gen.kindTable l).any (fun r =>
+        (r.family == .text || r.family == .categorical) && r.pandasKind == .categorical && r.narwhalsKind == .categorical &&
+          r.arrowKind == .categorical)) = true := by
+  decide
+
 /-- C08.2a  Levels of a text column (no declared categories): THE strictly increasing (code-point
 order), hence duplicate-free, list whose members are exactly the non-null values — for all value lists. -/
 theorem levels_sorted (vals : List (Option String)) :
